@@ -96,7 +96,7 @@ func ClientEstablishGuest(ctx context.Context, cc *lime.ClientChannel, name stri
 }
 
 // Transports returns a connected (client, server) transport pair: kind is
-// "inproc" (buf = transport queue size) or "tcp" (buf = pipe capacity in bytes).
+// "inproc" (buf = transport queue size), "tcp" or "ws" (buf = pipe capacity in bytes).
 // For tcp the two virtual conns are returned as well.
 func Transports(kind string, buf int, cfg *lime.TCPConfig) (ct, st lime.Transport, cconn, sconn *rt.Conn) {
 	switch kind {
@@ -121,6 +121,9 @@ func Transports(kind string, buf int, cfg *lime.TCPConfig) (ct, st lime.Transpor
 		a, b := rt.Pipe(buf)
 		a.Name, b.Name = "client", "server"
 		return lime.NewTCPTransportFromConn(a, cfg, false), lime.NewTCPTransportFromConn(b, cfg, true), a, b
+	}
+	if kind == "ws" {
+		return WSTransports(buf)
 	}
 	panic("unknown transport kind " + kind)
 }
